@@ -71,6 +71,8 @@ fn main() {
         "C01" => props::c01::run(&ctx, &mut model, &mut rep),
         "C02" => props::c02::run(&ctx, &mut model, &mut rep),
         "C04" => props::c04::run(&ctx, &mut model, &mut rep),
+        "C05" => props::c05::run(&ctx, &mut model, &mut rep),
+        "C06" => props::c06::run(&ctx, &mut model, &mut rep),
         "C07" => props::c07::run(&ctx, &mut model, &mut rep),
         "C15" => props::c15::run(&ctx, &mut model, &mut rep),
         "C17" => props::c17::run(&ctx, &mut model, &mut rep),
